@@ -259,3 +259,41 @@ Proof.
   - vm_compute. split; reflexivity.
 Qed.
 End Lin.
+
+(* ---------------------------------------------------------------- second tie: translated code
+   GenLeaf.v is REGENERATED from /repo's Go source on every run (tools/go2coq, explicit Go integer
+   semantics GoSem.v); the theorems below say that the generated definitions equal the model's
+   functions on the stated ranges, so an edit of these Go functions breaks an obligation of this file. *)
+From Arsenal Require GoSem GenLeaf GenLeafProofs.
+
+Theorem C09_code_AllocationsConflict : forall a b, GenLeaf.AllocationsConflict a b = Gran.conflict a b.
+Proof. exact GenLeafProofs.gen_AllocationsConflict_eq. Qed.
+Print Assumptions C09_code_AllocationsConflict.
+
+Theorem C09_code_RoundUpAllocRequest : forall gr regs atype size align,
+  0 <= gr < 2 ^ 63 -> -2 ^ 63 < size + gr <= 2 ^ 63 ->
+  GenLeaf.RoundUpAllocRequest gr atype size align = Gran.round_up (Gran.mkGran Gran.HVam gr regs) atype size align.
+Proof. exact GenLeafProofs.gen_RoundUpAllocRequest_eq. Qed.
+Print Assumptions C09_code_RoundUpAllocRequest.
+
+Theorem C09_code_IsEnabled : forall gr regs, GenLeaf.IsEnabled gr = Gran.enabled (Gran.mkGran Gran.HVam gr regs).
+Proof. exact GenLeafProofs.gen_IsEnabled_eq. Qed.
+Print Assumptions C09_code_IsEnabled.
+
+Theorem C09_code_getStartSlot : forall h gr regs off, 1 <= gr <= 2 ^ 63 ->
+  GenLeaf.getStartSlot gr off = GoSem.Ret (Gran.start_slot (Gran.mkGran h gr regs) off).
+Proof. exact GenLeafProofs.gen_getStartSlot_eq. Qed.
+Print Assumptions C09_code_getStartSlot.
+
+Theorem C09_code_getEndSlot : forall h gr regs off size,
+  1 <= gr <= 2 ^ 63 -> -2 ^ 63 <= size < 2 ^ 63 -> -2 ^ 63 < off + size <= 2 ^ 63 ->
+  GenLeaf.getEndSlot gr off size = GoSem.Ret (Gran.end_slot (Gran.mkGran h gr regs) off size).
+Proof. exact GenLeafProofs.gen_getEndSlot_eq. Qed.
+Print Assumptions C09_code_getEndSlot.
+
+Theorem C09_code_blocksOnSamePage : forall off1 size1 off2 pagesize,
+  -2 ^ 63 < off1 + size1 < 2 ^ 63 -> -2 ^ 63 < pagesize <= 2 ^ 63 ->
+  GenLeaf.blocksOnSamePage off1 size1 off2 pagesize
+  = GenLeafProofs.page_outcome (Linear.blocks_on_same_page off1 size1 off2 pagesize).
+Proof. exact GenLeafProofs.gen_blocksOnSamePage_eq. Qed.
+Print Assumptions C09_code_blocksOnSamePage.
